@@ -13,25 +13,15 @@
    expansion (C07_reference_decodes_format) and so does the library's reader, for every Read
    buffer size (C07_library_decodes_format) -- whoever produced the stream; and every stream
    the library's compressor produces IS of that format, so the reference decodes it to the
-   input (C07_lib_to_reference, the first cross-decoding statement, for all inputs).  The
-   second statement proper (what the reference's own ENCODER emits is decoded by the
-   library) follows from C07_library_decodes_format once the reference encoder is shown to
-   emit the format; that is a statement about the reference, kept as a Prop below and decided
-   per run by the correspondence check (both header modes; the reference reproduces the
-   golden .lzh files byte for byte). *)
+   input (C07_lib_to_reference, the first cross-decoding statement, for all inputs); and the
+   reference's own ENCODER (original order DeleteNode / store / InsertNode, its own search
+   trees shown equal to the library's) emits the format too, so the library decompresses
+   everything the reference compresses (C07_reference_to_lib, the second statement, for all
+   inputs and every Read buffer size).  What ties the reference to the outside world: it
+   reproduces the golden .lzh files of lzhuf/testdata byte for byte (checked on every run). *)
 From Verif Require Import Base.Bytes Lzhuf.Huff Lzhuf.HuffInv Lzhuf.Enc Lzhuf.Crc Lzhuf.CrcP Lzhuf.Dec
-  Lzhuf.LzP Lzhuf.Bits Lzhuf.Tokens Lzhuf.TokDecP Lzhuf.CanonDecP Lzhuf.LzhufP Lzhuf.Canon gen.Tables.
+  Lzhuf.LzP Lzhuf.Bits Lzhuf.Tokens Lzhuf.TokDecP Lzhuf.CanonDecP Lzhuf.LzhufP Lzhuf.CanonEncP Lzhuf.Canon gen.Tables.
 Open Scope N_scope.
-
-(* FULL STATEMENT of the direction that is not yet a theorem (not asserted) *)
-Definition C07_canon_to_lib_statement : Prop :=
-  forall (crc : bool) (x : bytes) (bs : nat), Forall (fun b => b < 256) x ->
-    (Z.of_nat (length x) < 2147483648)%Z -> (0 < bs)%nat ->
-    match new_reader crc [Canon.compress crc x] with
-    | Some d => let '(out, st, d') := read_all_loop (S (S (length x))) d bs [] in
-                out = x /\ st = REof /\ close_reader d' = ErrNone
-    | None => False
-    end.
 
 Theorem C07_constants :
   lz_N = Canon.cN /\ lz_F = Canon.cF /\ lz_Threshold = Canon.cTHRESHOLD /\ lz_NIL = Canon.cNIL
@@ -125,6 +115,29 @@ Theorem C07_lib_to_reference : forall (crc : bool) (x : bytes),
   Canon.decode crc (compress crc x) = Some x.
 Proof. exact reference_decodes_compress. Qed.
 Print Assumptions C07_lib_to_reference.
+
+(* reference -> library, for ALL inputs: the reference compressor emits the format ... *)
+Theorem C07_reference_emits_format : forall (crc : bool) x,
+  Forall (fun b => b < 256) x -> (Z.of_nat (length x) < 2147483648)%Z ->
+  exists toks body pad,
+    Forall tok_ok toks /\ expand win_init toks = x /\
+    Forall (fun b => b < 256) body /\
+    bytes_bits body = toks_bits huff_init toks ++ pad /\ (length pad < 8)%nat /\
+    Canon.compress crc x =
+      (if crc then le16 (crc_impl (le32 (N.of_nat (length x)) ++ body)) else [])
+      ++ le32 (N.of_nat (length x)) ++ body.
+Proof. exact canon_compress_format. Qed.
+Print Assumptions C07_reference_emits_format.
+(* ... and the library's reader decompresses it, with any positive Read buffer size *)
+Theorem C07_reference_to_lib : forall (crc : bool) (x : bytes) (bs : nat),
+  Forall (fun b => b < 256) x -> (Z.of_nat (length x) < 2147483648)%Z -> (0 < bs)%nat ->
+  match new_reader crc [Canon.compress crc x] with
+  | Some d => let '(out, st, d') := read_all_loop (S (S (length x))) d bs [] in
+              out = x /\ st = REof /\ close_reader d' = ErrNone
+  | None => False
+  end.
+Proof. exact canon_to_lib. Qed.
+Print Assumptions C07_reference_to_lib.
 
 (* the independent bitwise CRC of the reference and the model's specification agree on the
    standard check value CRC-16/XMODEM("123456789") = 0x31C3 *)
